@@ -31,6 +31,9 @@ type Ctx struct {
 	Stats    map[string]interface{}
 	Assume   []string
 	seenKeys map[string]bool
+	// MutantRun: print violated/undecided obligations as machine-readable
+	// lines and write no evidence (used by the thorough tier's self-test).
+	MutantRun bool
 }
 
 func NewCtx(p *Prog, prop, tier string) *Ctx {
@@ -106,6 +109,15 @@ var keySan = regexp.MustCompile(`[^A-Za-z0-9_.-]+`)
 
 // Finish prints the report, writes evidence and returns the exit code.
 func (c *Ctx) Finish(verifDir string, wall time.Duration, seed int64, level string, explanation string) int {
+	if c.MutantRun {
+		for _, o := range c.Obs {
+			if o.Verdict == "violated" || o.Verdict == "undecided" {
+				fmt.Printf("MUTANT-OB\t%s\t%s\t%s\t%s\n", o.Verdict, o.Rule, o.Key, o.Site)
+			}
+		}
+		fmt.Println("MUTANT-DONE")
+		return 0
+	}
 	known, err := loadKnown(filepath.Join(verifDir, "known_findings.json"))
 	if err != nil {
 		fmt.Printf("CHECKER-ERROR: cannot read known_findings.json: %v\n", err)
@@ -199,6 +211,12 @@ func (c *Ctx) Finish(verifDir string, wall time.Duration, seed int64, level stri
 		"analysed":            c.Stats,
 		"notes":               c.Notes,
 		"checker_cmd":         fmt.Sprintf("bin/dtcheck -property %s -tier %s", c.Prop, c.Tier),
+	}
+	if c.Assume == nil {
+		c.Assume = []string{}
+	}
+	if c.Notes == nil {
+		c.Notes = []string{}
 	}
 	ev := map[string]interface{}{
 		"property_id": c.Prop,
